@@ -310,6 +310,130 @@ def file_case(seq, acc):
             return
 
 
+# ----------------------------------------------------------------------------- rebuilt atoms never contribute
+
+_REAL = {}
+
+
+def real_world():
+    """Shipped charmm -> martini3001 data (inputs of the layer, parsed once per process)."""
+    if not _REAL:
+        import os
+        import vermouth
+        import vermouth.forcefield
+        from vermouth.map_input import read_mapping_directory
+        ffs = vermouth.forcefield.find_force_fields(os.path.join(vermouth.DATA_PATH, 'force_fields'))
+        _REAL['ffs'] = ffs
+        _REAL['maps'] = read_mapping_directory(os.path.join(vermouth.DATA_PATH, 'mappings'), ffs)
+    return _REAL['ffs'], _REAL['maps']
+
+
+PRESENT = {
+    'ALA': [('CA',), ('N',), ('CB',), ('N', 'CA', 'C', 'O'), ('CA', 'CB'), 'heavy', 'all'],
+    'LYS': [('CA',), ('NZ',), ('CB',), ('N', 'CA', 'C', 'O'), ('CA', 'CB', 'CG'), ('CA', 'NZ'), 'heavy', 'all'],
+    'SER': [('CA',), ('OG',), ('N', 'CA', 'C', 'O'), ('CB', 'OG'), 'heavy', 'all'],
+}
+
+
+def pipeline_case(item, acc):
+    """RepairGraph -> DoMapping -> DoAverageBead on a dipeptide of which one residue has only SOME of its atoms in the
+    input (down to a single atom): the atoms RepairGraph adds have no coordinates, so every particle must sit at the
+    weighted (mapping weight x mass) mean of those of its constituents that were in the input, and be NaN when none was."""
+    import numpy as np
+    import vermouth
+    from vermouth.processors import RepairGraph, DoMapping, DoAverageBead
+    resname, present, partial_first = item
+    case = {'layer': 'e2e-pipeline', 'resname': resname, 'present': list(present) if not isinstance(present, str) else present,
+            'partial_first': partial_first}
+    ffs, maps = real_world()
+    ff = ffs['charmm']
+    system = vermouth.System(force_field=ff)
+    mol = vermouth.molecule.Molecule(force_field=ff)
+    table = {}
+    key = 0
+    residues = [(resname, present), ('GLY', 'all')]
+    if not partial_first:
+        residues.reverse()
+    first_of = {}
+    for ridx, (name, keep) in enumerate(residues):
+        block = ff.blocks[name]
+        names = [block.nodes[n]['atomname'] for n in block.nodes]
+        if keep == 'heavy':
+            names = [n for n in names if block.nodes[n if n in block.nodes else n].get('element', n[0]) != 'H' and not n.startswith('H')]
+        elif keep != 'all':
+            names = [n for n in names if n in keep]
+        here = {}
+        for j, atomname in enumerate(names):
+            pos = (3 * ridx + (j * 7) % 5, (j * 3) % 7 - ridx, (j * 5) % 11)
+            element = block.nodes[atomname].get('element', atomname[0]) if atomname in block.nodes else atomname[0]
+            mol.add_node(key, atomname=atomname, resname=name, resid=ridx + 1, chain='A', element=element,
+                         position=np.array(pos, dtype=float) / 10.0)
+            table[key] = tuple(Fraction(p, 10) for p in pos)
+            here[atomname] = key
+            key += 1
+        for a, b in block.edges:
+            na, nb = block.nodes[a]['atomname'], block.nodes[b]['atomname']
+            if na in here and nb in here:
+                mol.add_edge(here[na], here[nb])
+        first_of[ridx] = here
+    if 'C' in first_of[0] and 'N' in first_of[1]:
+        mol.add_edge(first_of[0]['C'], first_of[1]['N'])
+    system.molecules.append(mol)
+    n_input = key
+    try:
+        with common.LogCapture():
+            RepairGraph().run_system(system)
+            repaired = system.molecules[0]
+            rebuilt_with_position = sorted((repaired.nodes[k]['resname'], repaired.nodes[k]['atomname']) for k in repaired.nodes
+                                           if k not in table and repaired.nodes[k].get('position') is not None)
+            vermouth.AttachMass(attribute='mass').run_system(system)
+            DoMapping(maps, to_ff=ffs['martini3001'], attribute_keep=('chain',), attribute_must=('resname',),
+                      attribute_stash=('resid',)).run_system(system)
+            DoAverageBead(ignore_missing_graphs=True).run_system(system)
+    except Exception as err:   # pylint: disable=broad-except
+        acc.case(outcome='exc')
+        acc.violation('c09:e2e-pipeline-exception', 'the pipeline raised %r' % (err,), case)
+        return
+    problems = []
+    n_nan = 0
+    for out in system.molecules:
+        for bead_key, bead in out.nodes(data=True):
+            if 'graph' not in bead:
+                continue
+            pairs = []
+            for atom_key, atom in bead['graph'].nodes(data=True):
+                if atom_key in table:
+                    weight = Fraction(bead.get('mapping_weights', {}).get(atom_key, 1)).limit_denominator(10 ** 6) * \
+                        Fraction(atom.get('mass', 1)).limit_denominator(10 ** 6)
+                    pairs.append((weight, table[atom_key]))
+            want = wmean(pairs) if pairs else None
+            got = bead.get('position')
+            label = '%s%s:%s' % (bead.get('resname'), bead.get('resid'), bead.get('atomname'))
+            if want is None:
+                n_nan += 1
+                if got is not None and not np.all(np.isnan(got)):
+                    problems.append(('c09:e2e-position-from-rebuilt-atoms', 'particle %s has position %r although none of its constituents %r '
+                                     'was in the input (atoms rebuilt with a position: %r)' % (
+                                         label, [round(float(x), 4) for x in got], sorted(a['atomname'] for _, a in bead['graph'].nodes(data=True)),
+                                         rebuilt_with_position[:6])))
+                    break
+            elif got is None or np.any(np.isnan(got)) or max(abs(float(g) - float(w)) for g, w in zip(got, want)) > 1e-6:
+                problems.append(('c09:e2e-pipeline-not-at-weighted-mean', 'particle %s is at %r; its constituents present in the input put it at %r '
+                                 '(atoms rebuilt with a position: %r)' % (label, None if got is None else [round(float(x), 4) for x in got],
+                                                                          [round(float(x), 4) for x in want], rebuilt_with_position[:6])))
+                break
+    acc.case(nontrivial=present != 'all', outcome=('pipe', resname, n_nan, len(problems)))
+    for sig, desc in problems[:1]:
+        acc.violation(sig, desc, case)
+
+
+def pipeline_items():
+    for resname, presents in PRESENT.items():
+        for present in presents:
+            for partial_first in (True, False):
+                yield resname, present, partial_first
+
+
 def work(task):
     common.bind_repo()
     kind, items = task
@@ -317,6 +441,8 @@ def work(task):
     for item in items:
         if kind == 'file':
             file_case(item, acc)
+        elif kind == 'pipeline':
+            pipeline_case(item, acc)
         else:
             molecule_case(item, acc)
     return acc
@@ -336,12 +462,20 @@ def run_layer(ctx):
     for part in common.pmap(work, [('file', [seq]) for seq in seqs], fresh=True):
         acc += part
     ctx.layer('mapping-file-rounds', acc)
+    items = list(pipeline_items())
+    acc = Acc()
+    for part in common.pmap(work, [('pipeline', chunk) for chunk in common.chunked(items, 3)]):
+        acc += part
+    ctx.layer('rebuilt-atoms-never-contribute', acc)
 
 
 def replay(case):
     common.bind_repo()
     acc = Acc()
-    if case['layer'] == 'e2e-file':
+    if case['layer'] == 'e2e-pipeline':
+        pipeline_case((case['resname'], tuple(case['present']) if isinstance(case['present'], list) else case['present'],
+                       case['partial_first']), acc)
+    elif case['layer'] == 'e2e-file':
         file_case([tuple(v) for v in case['sequence']], acc)
     else:
         molecule_case((case['nres'], tuple(tuple(d) for d in case['decorations']), tuple(case['block_w']), tuple(case['link_w']),
